@@ -1345,6 +1345,37 @@ def directed_cases(cat):
             for norm in (False, True):
                 for N in (1, 2, 7):
                     out.append(opt(algo, N, diff=diff, normalize_design_space=norm))
+    # known finding: MultiStart with normalize_design_space=True un-normalises the points of its sub-optimisations a
+    # second time (fixed problem, fixed settings, default seed of the LHS starting points)
+    if "MultiStart" in cat["opt"]:
+        # bounds [1,3]^2, unconstrained minimum at (5, 4.6): a physical point x read as a normalised one is evaluated
+        # and recorded as 1+2x, outside the space, where the objective is lower than anywhere inside
+        shifted = {"fam": "quad", "n": 2, "n_int": 0, "lb": [1.0, 1.0], "ub": [3.0, 3.0], "x0": [2.0, 2.0],
+                   "A": [[2.0, 0.0], [0.0, 2.0]], "c": [5.0, 4.6], "cstr": [], "sleep_ms": 0}
+        for pd_, sub, N, n_start in ((rosen, "NLOPT_COBYLA", 20, 2), (shifted, "SLSQP", 8, 2),
+                                     (shifted, "L-BFGS-B", 9, 3), (shifted, "NLOPT_COBYLA", 12, 2)):
+            if sub in cat["opt"]:
+                c = opt("MultiStart", N, pd=pd_, n_start=n_start, opt_algo_name=sub, doe_algo_name="LHS",
+                        normalize_design_space=True, use_database=True)
+                c["directed"] = "multistart-normalized"
+                out.append(c)
+    # known finding: the budget stops a two-objective MNBI run whose short history defeats
+    # ParetoFront.from_optimization_problem (fixed one-variable problem with one inequality constraint)
+    if "MNBI" in cat["opt"]:
+        two = {"fam": "mo", "n": 1, "n_int": 0, "lb": [-1.63], "ub": [2.04], "x0": [0.107], "sleep_ms": 0,
+               "A": [[0.815]], "c": [-0.48], "A2": [[1.165]], "c2": [1.208],
+               "cstr": [{"type": "ineq", "a": [0.41], "b": 0.756}]}
+        for N, n_sub in ((3, 5), (3, 3), (2, 4)):
+            c = opt("MNBI", N, pd=two, sub_optim_algo="SLSQP", n_sub_optim=n_sub, sub_optim_max_iter=8, use_database=True)
+            c["directed"] = "mnbi-pareto-front"
+            out.append(c)
+        # known finding: the budget of the main problem is met inside the first sub-optimisation (max_iter=1: the
+        # initial point consumed it) and MNBI raises RuntimeError; same with a tolerance criterion
+        free = dict(two, cstr=[])
+        for pd_, N, extra in ((two, 1, {}), (free, 1, {}), (free, 30, {"xtol_abs": 1e12, "stop_crit_n_x": 2})):
+            c = opt("MNBI", N, pd=pd_, sub_optim_algo="SLSQP", n_sub_optim=3, sub_optim_max_iter=5, use_database=True, **extra)
+            c["directed"] = "mnbi-criterion-in-sub-optimization"
+            out.append(c)
     # KKT criterion armed (never met) and augmented Lagrangian of order 1: both build LagrangeMultipliers mid-run
     for algo in ("SLSQP", "L-BFGS-B", "NLOPT_SLSQP"):
         if algo in cat["opt"]:
@@ -1404,6 +1435,16 @@ def directed_cases(cat):
                           "lib": cat["doe"].get(algo, {}).get("lib", algo)}]}
 
     if "CustomDOE" in cat["doe"]:
+        # known findings: normalize_design_space=True (samples un-normalised a second time), and one row repeated six
+        # times with a 30 ms evaluation on two workers (each worker evaluates it with its own copy of the database)
+        for n_proc in (1, 2):
+            extra = {"n_processes": n_proc} if n_proc > 1 else {}
+            c = doe("CustomDOE", 6, samples=rows, normalize_design_space=True, **extra)
+            c["directed"] = "doe-normalized"
+            out.append(c)
+        c = doe("CustomDOE", 7, pd=dict(quad, sleep_ms=30, cstr=[]), samples=[[0.25, 0.75]] * 6 + [[0.5, 1.0]], n_processes=2)
+        c["directed"] = "doe-parallel-duplicates"
+        out.append(c)
         for n_proc in (1, 2):
             extra = {"n_processes": n_proc} if n_proc > 1 else {}
             out.append(doe("CustomDOE", 6, samples=rows, **extra))
